@@ -19,7 +19,17 @@ def main():
     if a.prop not in CHECKS:
         print('no check for ' + a.prop, file=sys.stderr)
         sys.exit(2)
-    mod = importlib.import_module(CHECKS[a.prop])
+    modname = CHECKS[a.prop]
+    if modname in ('kani.c06', 'kani.c19'):
+        import kani.check as kc
+        fn = kc.c06 if a.prop == 'C06' else kc.c19
+        try:
+            rc = fn(a.tier, only=a.only) if not a.replay else (print(open(a.replay).read()[:6000]) or 0)
+        except Inconclusive as ex:
+            log('INCONCLUSIVE: %s' % ex)
+            rc = 2
+        sys.exit(rc)
+    mod = importlib.import_module(modname)
     try:
         if a.replay:
             rc = (getattr(mod, 'replay', None) or getattr(mod, 'replay_cmd'))(a.replay)
